@@ -1,0 +1,537 @@
+//go:build verif
+
+// Verification hooks (build tag verif): an in-process driver for one real time-series *shard, so that an
+// external harness (module verifharness, /verif/harness) can
+//
+//   - create / close / re-open a shard in a directory        (VerifOpenShard, Close)
+//   - write rows through shard.WriteRows                     (WriteRows)
+//   - force a flush, or pause a flush after the memtable swap (ForceFlush, BeginPausedFlush / FinishPausedFlush)
+//   - trigger level / full compaction and out-of-order merge  (LevelCompact, FullCompact, MergeOutOfOrder)
+//   - read rows back through shard.CreateCursor               (Dump)
+//   - list the data files with their per-series time ranges   (Files)
+//   - look a series id up in the shard's index                (SeriesID)
+//
+// Everything here is a thin wrapper around code of this package; it has no behaviour of its own and changes no
+// existing function. The construction sequence is the one the package's own tests use (createShard/closeShard in
+// shard_test.go). First user: property C02/C09 of /verif; meant to be reused by C01, C03, C04, C13.
+package engine
+
+import (
+	"context"
+	"fmt"
+	"path/filepath"
+	"sort"
+	"sync"
+	"time"
+
+	"github.com/openGemini/openGemini/engine/comm"
+	"github.com/openGemini/openGemini/engine/executor"
+	"github.com/openGemini/openGemini/engine/immutable"
+	"github.com/openGemini/openGemini/engine/index/tsi"
+	"github.com/openGemini/openGemini/engine/mutable"
+	"github.com/openGemini/openGemini/lib/config"
+	"github.com/openGemini/openGemini/lib/fileops"
+	"github.com/openGemini/openGemini/lib/index"
+	"github.com/openGemini/openGemini/lib/record"
+	"github.com/openGemini/openGemini/lib/util"
+	"github.com/openGemini/openGemini/lib/util/lifted/influx/influxql"
+	"github.com/openGemini/openGemini/lib/util/lifted/influx/meta"
+	"github.com/openGemini/openGemini/lib/util/lifted/influx/query"
+	"github.com/openGemini/openGemini/lib/util/lifted/vm/protoparser/influx"
+)
+
+// VerifShard is an opened shard together with the index builder it was created with.
+type VerifShard struct {
+	sh   *shard
+	dir  string
+	opts EngineOptions
+
+	pauseMu sync.Mutex
+	paused  *verifPause
+}
+
+// VerifShardConfig names the few identity parameters of the shard; zero values get the defaults the package
+// tests use.
+type VerifShardConfig struct {
+	Db, Rp   string
+	PtId     uint32
+	ShardID  uint64
+	Start    time.Time // shard time range (default 1970-01-01T01:00:00Z .. 2099-01-01T01:00:00Z)
+	End      time.Time
+	Duration time.Duration
+}
+
+// verifSeq plays the role of DBPTInfo.sequenceID (partition.go): the series-id sequence handed to every index of the
+// process. It is initialised once from the clock, as there, and shared by all shards opened through VerifOpenShard, so
+// that re-opening a shard never re-issues a series id.
+var (
+	verifSeq     uint64
+	verifSeqOnce sync.Once
+)
+
+// VerifOpenShard creates (or re-opens, when dir already holds one) a TSSTORE shard below dir:
+// dir/data, dir/wal, dir/<db>/index/data. NewEngine must have been called once before (it initialises the
+// package level limiters); the options passed here are the per-shard ones (WAL, memtable limits ...).
+// Opening replays the WAL exactly as a server start does (OpenAndEnable).
+func VerifOpenShard(dir string, opts EngineOptions, c VerifShardConfig) (*VerifShard, error) {
+	if c.Db == "" {
+		c.Db = "db0"
+	}
+	if c.Rp == "" {
+		c.Rp = "rp0"
+	}
+	if c.PtId == 0 {
+		c.PtId = 1
+	}
+	if c.ShardID == 0 {
+		c.ShardID = 1
+	}
+	if c.Start.IsZero() {
+		c.Start = time.Date(1970, 1, 1, 1, 0, 0, 0, time.UTC)
+	}
+	if c.End.IsZero() {
+		c.End = time.Date(2099, 1, 1, 1, 0, 0, 0, time.UTC)
+	}
+	if c.Duration == 0 {
+		c.Duration = time.Hour
+	}
+	dataPath := dir + "/data"
+	walPath := dir + "/wal"
+	lockPath := filepath.Join(dataPath, "LOCK")
+	indexPath := filepath.Join(dir, c.Db, "/index/data")
+	ident := &meta.IndexIdentifier{OwnerDb: c.Db, OwnerPt: c.PtId, Policy: c.Rp}
+	ident.Index = &meta.IndexDescriptor{IndexID: 1, IndexGroupID: 2, TimeRange: meta.TimeRangeInfo{}}
+	verifSeqOnce.Do(func() { verifSeq = uint64(time.Now().Unix()) })
+	iopts := new(tsi.Options).
+		Ident(ident).
+		Path(indexPath).
+		IndexType(index.MergeSet).
+		EngineType(config.TSSTORE).
+		StartTime(time.Now()).
+		EndTime(time.Now().Add(time.Hour)).
+		Duration(time.Hour).
+		LogicalClock(1).
+		SequenceId(&verifSeq).
+		Lock(&lockPath)
+	indexBuilder := tsi.NewIndexBuilder(iopts)
+	primaryIndex, err := tsi.NewIndex(iopts)
+	if err != nil {
+		return nil, err
+	}
+	primaryIndex.SetIndexBuilder(indexBuilder)
+	indexRelation, err := tsi.NewIndexRelation(iopts, primaryIndex, indexBuilder)
+	if err != nil {
+		return nil, err
+	}
+	indexBuilder.Relations[uint32(index.MergeSet)] = indexRelation
+	if err = indexBuilder.Open(); err != nil {
+		return nil, err
+	}
+	shardDuration := &meta.DurationDescriptor{Tier: util.Hot, TierDuration: c.Duration}
+	tr := &meta.TimeRangeInfo{StartTime: c.Start, EndTime: c.End}
+	shardIdent := &meta.ShardIdentifier{ShardID: c.ShardID, ShardGroupID: 1, OwnerDb: c.Db, OwnerPt: c.PtId, Policy: c.Rp}
+	sh := NewShard(dataPath, walPath, &lockPath, shardIdent, shardDuration, tr, opts, config.TSSTORE, nil)
+	sh.indexBuilder = indexBuilder
+	if err := sh.OpenAndEnable(nil); err != nil {
+		_ = sh.Close()
+		_ = indexBuilder.Close()
+		return nil, err
+	}
+	return &VerifShard{sh: sh, dir: dir, opts: opts}, nil
+}
+
+// Close closes the index builder and the shard (the memtable is NOT flushed, exactly as shard.Close does;
+// the WAL is replayed by the next VerifOpenShard on the same directory).
+func (v *VerifShard) Close() error {
+	if err := v.sh.indexBuilder.Close(); err != nil {
+		return err
+	}
+	return v.sh.Close()
+}
+
+// WriteRows sorts the fields of every row, marshals the batch for the WAL and calls shard.WriteRows - the
+// sequence of the package tests' writeData. The rows must carry Name, Tags, Fields, Timestamp; index and shard keys
+// are derived here.
+func (v *VerifShard) WriteRows(rows []influx.Row) error {
+	for i := range rows {
+		sort.Sort(&rows[i].Fields)
+		sort.Sort(&rows[i].Tags)
+		rows[i].UnmarshalIndexKeys(nil)
+		if err := rows[i].UnmarshalShardKeyByTag(nil); err != nil {
+			return err
+		}
+	}
+	buff, err := influx.FastMarshalMultiRows(nil, rows)
+	if err != nil {
+		return err
+	}
+	return v.sh.WriteRows(rows, buff)
+}
+
+// FlushIndex is IndexBuilder.Flush: series created by recent writes become searchable at once. (The server does the
+// same on the index's own short timer and at every snapshot; a harness that reads right after a write calls it so
+// that index visibility latency is not mistaken for missing data.)
+func (v *VerifShard) FlushIndex() { v.sh.indexBuilder.Flush() }
+
+// ForceFlush is shard.ForceFlush (synchronous: returns when the snapshot has been committed to files).
+func (v *VerifShard) ForceFlush() { v.sh.ForceFlush() }
+
+// SetBackground switches the shard's background level compaction and out-of-order merge on or off
+// (TablesStore.CompactionEnable/Disable, MergeEnable/Disable). A harness that wants deterministic layouts keeps
+// them off and triggers compactions explicitly.
+func (v *VerifShard) SetBackground(compaction, merge bool) {
+	if compaction {
+		v.sh.immTables.CompactionEnable()
+	} else {
+		v.sh.immTables.CompactionDisable()
+	}
+	if merge {
+		v.sh.immTables.MergeEnable()
+	} else {
+		v.sh.immTables.MergeDisable()
+	}
+}
+
+func (v *VerifShard) waitTables() {
+	if m, ok := v.sh.immTables.(*immutable.MmsTables); ok {
+		m.Wait()
+	}
+}
+
+// LevelCompact runs TablesStore.LevelCompact(level) and waits until the scheduled tasks are done.
+func (v *VerifShard) LevelCompact(level uint16) error {
+	err := v.sh.immTables.LevelCompact(level, v.sh.GetID())
+	v.waitTables()
+	return err
+}
+
+// FullCompact runs TablesStore.FullCompact and waits.
+func (v *VerifShard) FullCompact() error {
+	err := v.sh.immTables.FullCompact(v.sh.GetID())
+	v.waitTables()
+	return err
+}
+
+// MergeOutOfOrder runs TablesStore.MergeOutOfOrder(full, force) and waits.
+func (v *VerifShard) MergeOutOfOrder(full, force bool) error {
+	err := v.sh.immTables.MergeOutOfOrder(v.sh.GetID(), full, force)
+	v.waitTables()
+	return err
+}
+
+// SeriesID looks a series up in the shard's primary index by the index key of a row (Row.IndexKey).
+// 0 means unknown.
+func (v *VerifShard) SeriesID(indexKey []byte) (uint64, error) {
+	ms, ok := v.sh.indexBuilder.GetPrimaryIndex().(*tsi.MergeSetIndex)
+	if !ok {
+		return 0, fmt.Errorf("primary index is not a merge set index")
+	}
+	return ms.GetSeriesIdBySeriesKey(indexKey)
+}
+
+// ---- paused flush -------------------------------------------------------------------------------------------
+
+// verifPause interposes on the memtable's MTable interface value: FlushChunks first signals that the flush has
+// reached the point after the memtable swap (snapshot table installed, nothing written yet), waits for the
+// harness, and then calls the real FlushChunks. All other methods are the embedded real ones.
+type verifPause struct {
+	mutable.MTable
+	once    sync.Once
+	reached chan struct{}
+	resume  chan struct{}
+	done    chan struct{}
+}
+
+func (p *verifPause) FlushChunks(table *mutable.MemTable, dataPath, msName, db, rp string, lock *string, tbStore immutable.TablesStore, msRowCount int64, fileInfos chan []immutable.FileInfoExtend) {
+	p.once.Do(func() { close(p.reached) })
+	<-p.resume
+	p.MTable.FlushChunks(table, dataPath, msName, db, rp, lock, tbStore, msRowCount, fileInfos)
+}
+
+// BeginPausedFlush starts shard.ForceFlush in a goroutine and returns once the flush has swapped the tables and
+// is about to write the snapshot table to files (so reads now see active + snapshot table + files). Returns false
+// (and does nothing) when the active memtable is empty: then ForceFlush would never reach FlushChunks.
+func (v *VerifShard) BeginPausedFlush() bool {
+	v.pauseMu.Lock()
+	defer v.pauseMu.Unlock()
+	if v.paused != nil {
+		return false
+	}
+	s := v.sh
+	s.snapshotLock.Lock()
+	tbl := s.activeTbl
+	if tbl == nil || tbl.GetMemSize() == 0 || tbl.MTable == nil {
+		s.snapshotLock.Unlock()
+		return false
+	}
+	p := &verifPause{MTable: tbl.MTable, reached: make(chan struct{}), resume: make(chan struct{}), done: make(chan struct{})}
+	tbl.MTable = p
+	s.snapshotLock.Unlock()
+	go func() {
+		s.ForceFlush()
+		close(p.done)
+	}()
+	select {
+	case <-p.reached:
+	case <-p.done: // nothing to flush after all
+		v.restoreMTable(tbl, p)
+		return false
+	}
+	v.paused = p
+	return true
+}
+
+func (v *VerifShard) restoreMTable(tbl *mutable.MemTable, p *verifPause) {
+	if tbl != nil && tbl.MTable == mutable.MTable(p) {
+		tbl.MTable = p.MTable
+	}
+}
+
+// FinishPausedFlush lets the paused flush continue and waits for it to complete.
+func (v *VerifShard) FinishPausedFlush() {
+	v.pauseMu.Lock()
+	p := v.paused
+	v.paused = nil
+	v.pauseMu.Unlock()
+	if p == nil {
+		return
+	}
+	close(p.resume)
+	<-p.done
+}
+
+// ---- reads --------------------------------------------------------------------------------------------------
+
+// VerifQuery describes a plain row query (no calls): measurement, the selected fields with their types, the
+// inclusive time range, the order, optional group-by tag keys.
+type VerifQuery struct {
+	Mst       string
+	Fields    []influxql.VarRef
+	Tmin      int64
+	Tmax      int64
+	Ascending bool
+	Dims      []string
+	// Condition is an optional field/tag filter expression in InfluxQL syntax (e.g. "f1 > 3").
+	Condition string
+	// Calls, when non-empty, makes this an aggregate query: one call per entry, e.g. {Name:"sum", Args:[VarRef f1]}.
+	Calls []influxql.Call
+	// Interval is the GROUP BY time() width (0: none).
+	Interval time.Duration
+	// ExactStatistic sets the exact-statistics hint.
+	ExactStatistic bool
+	ChunkSize      int
+	MaxParallel    int
+}
+
+// VerifChunk is one record handed out by a group cursor together with the series it belongs to.
+type VerifChunk struct {
+	Rec      *record.Record // deep copy, owned by the caller
+	TagIndex []int          // start row of every tag section
+	TagKeys  [][]byte       // encoded tag set of every section (decode with executor.NewChunkTagsV2)
+}
+
+func (q *VerifQuery) options() (*query.ProcessorOptions, error) {
+	var opt query.ProcessorOptions
+	opt.Name = q.Mst
+	opt.Dimensions = q.Dims
+	opt.Ascending = q.Ascending
+	opt.FieldAux = q.Fields
+	opt.MaxParallel = q.MaxParallel
+	if opt.MaxParallel == 0 {
+		opt.MaxParallel = 1
+	}
+	opt.ChunkSize = q.ChunkSize
+	if opt.ChunkSize == 0 {
+		opt.ChunkSize = 1000
+	}
+	opt.StartTime = q.Tmin
+	opt.EndTime = q.Tmax
+	if q.Interval > 0 {
+		opt.Interval.Duration = q.Interval
+	}
+	if q.Condition != "" {
+		expr, err := influxql.ParseExpr(q.Condition)
+		if err != nil {
+			return nil, err
+		}
+		opt.Condition = expr
+	}
+	return &opt, nil
+}
+
+// Schema builds the executor.QuerySchema for q the way the package tests do (genQuerySchema / genAggQuerySchema).
+func (q *VerifQuery) Schema() (*executor.QuerySchema, error) {
+	opt, err := q.options()
+	if err != nil {
+		return nil, err
+	}
+	var fields influxql.Fields
+	var columnNames []string
+	for i := range q.Calls {
+		fields = append(fields, &influxql.Field{Expr: &q.Calls[i], Alias: q.Calls[i].Name})
+		columnNames = append(columnNames, q.Calls[i].Name)
+	}
+	for i := range q.Fields {
+		fields = append(fields, &influxql.Field{Expr: &q.Fields[i]})
+		columnNames = append(columnNames, q.Fields[i].Val)
+	}
+	return executor.NewQuerySchema(fields, columnNames, opt, nil), nil
+}
+
+// Dump runs a plain row query through shard.CreateCursor and drains every group cursor with the production
+// iteration (groupCursor.Next -> tagSetCursor.NextWithoutPreAgg -> seriesCursor -> tsmMergeCursor / MemTables.Values /
+// LocationCursor), returning deep copies of the records in the order the cursors hand them out. A record carries its
+// tag sections (start row + encoded group-by tag set, see Record.GetTagIndexAndKey); with Dims naming a tag that
+// identifies the series every section belongs to one series, without Dims the rows of all series come interleaved by
+// time and are told apart by an aux tag column (put the tag into Fields with Type influxql.Tag).
+// The only preparation done here is the one the package tests do for this path: the tag set cursors get their record
+// schema (normally pushed down by SinkPlan from the logical plan) from their own GetSchema.
+func (v *VerifShard) Dump(q VerifQuery) ([]VerifChunk, error) {
+	schema, err := q.Schema()
+	if err != nil {
+		return nil, err
+	}
+	info, err := v.sh.CreateCursor(context.Background(), schema)
+	if err != nil || info == nil {
+		return nil, err
+	}
+	defer info.Unref()
+	var out []VerifChunk
+	for _, cur := range info.GetCursors() {
+		chunks, err := verifDrain(cur)
+		if err != nil {
+			return out, err
+		}
+		out = append(out, chunks...)
+	}
+	return out, nil
+}
+
+func verifDrain(cur comm.KeyCursor) (out []VerifChunk, err error) {
+	defer func() {
+		if e := cur.Close(); e != nil && err == nil {
+			err = e
+		}
+	}()
+	if gc, ok := cur.(*groupCursor); ok {
+		for i := range gc.tagSetCursors {
+			if ts, ok := gc.tagSetCursors[i].(*tagSetCursor); ok {
+				ts.SetSchema(ts.GetSchema())
+			}
+		}
+	}
+	for {
+		rec, _, err := cur.Next()
+		if err != nil {
+			return out, err
+		}
+		if rec == nil {
+			return out, nil
+		}
+		c := VerifChunk{Rec: rec.Copy(true, nil, rec.Schema)} // deep copy in record order (nil when the record has no row)
+		if c.Rec == nil {
+			continue
+		}
+		keys, idx := rec.GetTagIndexAndKey()
+		c.TagIndex = append(c.TagIndex, idx...)
+		for _, k := range keys {
+			c.TagKeys = append(c.TagKeys, append([]byte(nil), (*k)...))
+		}
+		out = append(out, c)
+	}
+}
+
+// ---- file listing -------------------------------------------------------------------------------------------
+
+// VerifFileSeries is the time range one series occupies in one file.
+type VerifFileSeries struct {
+	Sid        uint64
+	MinT, MaxT int64
+	Segments   int
+}
+
+// VerifFile describes one TSSP data file of a measurement.
+type VerifFile struct {
+	Order      bool
+	Level      uint16
+	Seq        uint64
+	Merge      uint16
+	Extent     uint16
+	Path       string
+	MinT, MaxT int64
+	Series     []VerifFileSeries
+}
+
+// Files lists the ordered and out-of-order files of a measurement in the store's own list order, with the time
+// range each of the given series occupies in each file (read from the file's chunk meta).
+func (v *VerifShard) Files(mst string, sids []uint64) ([]VerifFile, error) {
+	tr := util.TimeRange{Min: influxql.MinTime, Max: influxql.MaxTime}
+	order, unorder, _ := v.sh.immTables.GetBothFilesRef(mst, false, tr, nil)
+	immutable.RefFilesReader(order...)
+	immutable.RefFilesReader(unorder...)
+	defer func() {
+		for _, f := range order {
+			f.UnrefFileReader()
+			f.Unref()
+		}
+		for _, f := range unorder {
+			f.UnrefFileReader()
+			f.Unref()
+		}
+	}()
+	var out []VerifFile
+	add := func(fs []immutable.TSSPFile) error {
+		for _, f := range fs {
+			lv, seq := f.LevelAndSequence()
+			vf := VerifFile{Order: f.IsOrder(), Level: lv, Seq: seq, Merge: f.FileNameMerge(), Extent: f.FileNameExtend(), Path: f.Path()}
+			mn, mx, err := f.MinMaxTime()
+			if err != nil {
+				return err
+			}
+			vf.MinT, vf.MaxT = mn, mx
+			for _, sid := range sids {
+				cm, err := VerifChunkMeta(f, sid, tr)
+				if err != nil {
+					return err
+				}
+				if cm == nil {
+					continue
+				}
+				a, b := cm.MinMaxTime()
+				vf.Series = append(vf.Series, VerifFileSeries{Sid: sid, MinT: a, MaxT: b, Segments: cm.SegmentCount()})
+			}
+			out = append(out, vf)
+		}
+		return nil
+	}
+	if err := add(order); err != nil {
+		return nil, err
+	}
+	if err := add(unorder); err != nil {
+		return nil, err
+	}
+	return out, nil
+}
+
+// VerifChunkMeta returns the chunk meta (segment ranges, per-column per-segment statistics) of sid in f, or nil
+// when the file does not hold sid. The value is a private copy read with TSSPFile.ReadChunkMetaData.
+func VerifChunkMeta(f immutable.TSSPFile, sid uint64, tr util.TimeRange) (*immutable.ChunkMeta, error) {
+	ok, err := f.Contains(sid)
+	if err != nil || !ok {
+		return nil, err
+	}
+	idx, mi, err := f.MetaIndex(sid, tr)
+	if err != nil || mi == nil {
+		return nil, err
+	}
+	cms, err := f.ReadChunkMetaData(idx, mi, nil, fileops.IO_PRIORITY_ULTRA_HIGH)
+	if err != nil {
+		return nil, err
+	}
+	for i := range cms {
+		if cms[i].GetSid() == sid {
+			return &cms[i], nil
+		}
+	}
+	return nil, nil
+}
